@@ -126,10 +126,10 @@ var props = map[string]*propConfig{
 	"C04": {
 		Harness: "h1", Level: "exploration",
 		Families: []family{
-			{Name: "kills", Flags: map[string]string{"family": "kills"}, Quick: 24000, Thorough: 3200000},
+			{Name: "kills", Flags: map[string]string{"family": "kills"}, Quick: 48000, Thorough: 3200000},
 			{Name: "kills-at-the-limit", Flags: map[string]string{"family": "saturation"}, Quick: 6000, Thorough: 800000},
 		},
-		QuickBudget: 90 * time.Second, ThoroughBudget: 25 * time.Minute, Chunk: 50,
+		QuickBudget: 150 * time.Second, ThoroughBudget: 25 * time.Minute, Chunk: 50,
 		Rule: "one run = 2..4 simulated processes (independent counter.file objects and mappings of one shared file, 1..2 threads each) incrementing names drawn from a pool with same-name, same-bucket (colliding), page-crossing and page-end-sized names, scheduled at single-atomic-operation granularity, with 0..3 kills placed at a random step or right after the victim's k-th limit CAS / head CAS / record write / extension write / mmap; the file is strictly decoded by an independent decoder after every step; distinct = distinct event-log hash; non-trivial = at least one context switch between live tasks or a kill; one run in six has a foreign opener (same file name, other build metadata) that must be refused once the file exists; the header metadata of an initialised file must never change; one run in six ends the week for all processes at once (they race to create the next file); kills also late in the run, with classes of their own for the record-level compare-and-swap; kills-at-the-limit: the same world with amounts of 2^62..2^63-1, so that records reach 2^64-1 within a few adds and kills and other processes' reads fall inside the add that sticks (per-instant clauses only: well-formed, never above what was begun, never decreasing)",
 		Real: []string{"internal/counter", "internal/mmap", "internal/telemetry", "Linux tmpfs, mmap(MAP_SHARED) coherence between several mappings in one address space", "real munmap in half of the runs"},
 		Stub: []string{"processes are simulated: one address space, one counter.file object per process; kill = never scheduled again, nothing unwound", "Go scheduler", "wall clock"},
@@ -143,7 +143,7 @@ var props = map[string]*propConfig{
 	"C10": {
 		Harness: "h1", Level: "exploration",
 		Families: []family{
-			{Name: "histories", Flags: map[string]string{"family": "histories"}, Quick: 16000, Thorough: 2400000},
+			{Name: "histories", Flags: map[string]string{"family": "histories"}, Quick: 24000, Thorough: 2400000},
 			{Name: "independent-writer", Flags: map[string]string{"family": "encoded"}, Quick: 4000, Thorough: 1200000},
 		},
 		QuickBudget: 90 * time.Second, ThoroughBudget: 25 * time.Minute, Chunk: 50,
